@@ -145,6 +145,9 @@ var jsErrRe = regexp.MustCompile(`\b(SyntaxError|TypeError|ReferenceError|RangeE
 
 func errClass(err error) string {
 	s := err.Error()
+	if strings.Contains(s, "invalid position with infinity value") {
+		return "object has invalid position with infinity value (validateObjectPositions)"
+	}
 	if m := jsErrRe.FindString(s); m != "" {
 		// an error raised inside the JavaScript engine bridge: the JS error type is the mechanism; the
 		// message text depends on the characters that leaked into the script
@@ -205,3 +208,20 @@ func boardsOf(d *d2target.Diagram, g *d2graph.Graph, visit func(path string, d *
 }
 
 func sprintf(f string, a ...any) string { return fmt.Sprintf(f, a...) }
+
+// byDesignLayoutError: user-facing validations that d2 performs in the layout stage on purpose; the
+// messages are pinned as expected errors by e2etests/regression_test.go. Diagrams rejected this way
+// are treated like diagrams that do not compile.
+func byDesignLayoutError(err error) bool {
+	s := err.Error()
+	for _, m := range []string{
+		"no actors declared in sequence diagram",
+		"could not find center of",
+		"actors in sequence diagrams cannot themselves be sequence diagrams",
+	} {
+		if strings.Contains(s, m) {
+			return true
+		}
+	}
+	return false
+}
